@@ -54,6 +54,12 @@ checks = {
  "C12": ("exploration", "seeded API histories on the stream stack: transport cuts at drawn byte offsets, protected alerts of every level from a scripted peer, early application data, context cancellation at drawn handshake steps, and Close/CloseWrite/Read/Write/Handshake sequences, judged by a per-end state machine",
    "cut: writer sends N records then closes / half-closes / does nothing while the transport ends before or inside a drawn record; alert: scripted peer sends protected alerts (levels 0,1,2,3,255; many descriptions; runs of 16/17); early-app; cancel (the library's interrupter goroutine is the one unmanaged goroutine: its transport Close is awaited as an external event); api sequences incl. before the handshake. Oracle: prefix of whole records, EOF only on close_notify or boundary cut, ErrUnexpectedEOF inside a record, errors latched, nothing delivered after Close/failure, second Close = net.ErrClosed, Write after CloseWrite fails, cancelled handshake returns context.Canceled.",
    "Trusted: Write after a RECEIVED fatal alert is not judged (see assumptions in the evidence).", "5/C12"),
+ "C03": ("fault_enumeration", "single-fault enumeration (stratified / every byte position, drop, duplicate, swap, truncate, inject) by a man in the middle on the handshake of two real endpoints, compared with an untampered baseline run of the same seeds",
+   "Stream stack: record-aware MITM flips every (thorough) or a stratified sample (quick) of byte positions of every handshake record with three masks, drops / duplicates / swaps / truncates records and injects records of every content type; datagram stack: corrupt / drop / duplicate / delay / truncate datagrams under virtual time; full and resumed, four suites, with and without client authentication; seeded multi-fault plans in thorough. Oracle: no panic; both endpoints complete only with identical views equal to the baseline (version, suite, ALPN, resumption, session id, peer certificates, recorded Finished values) and, on the stream stack, only if the handshake/CCS payload delivered equals the payload sent.",
+   "Trusted: record headers are exempt (property text); baseline and attack runs share all seeds.", "5/C03"),
+ "C20": ("exploration", "seeded (first-record header x segmentation x early disconnect x configuration x read-buffer size) cases through pa.NewListener with real tlcp and crypto/tls clients and raw header writers",
+   "All 256 major version bytes via raw writers that stop after 0..12 bytes, real tlcp and crypto/tls clients with handshake and echo through the adapter, TLCP-only / TLS-only / dual configuration, transport segmentation down to one byte, application read buffers from 1 byte, first operation Read or Write. Oracle: routing by major byte, the exact unsupported-protocol / configuration errors, no byte lost, same negotiated state as directly, error (no hang, no panic) on early disconnect.",
+   "Trusted: crypto/tls runs as real code with one task per connection.", "5/C20"),
 }
 not_applicable = {
  "C14": "pure function of its input (marshal/unmarshal): no schedule, clock, transport, peer or history enters; input generation is not a simulation target (DESIGN.md section 7). What the simulator sees of the codec is covered under C03/C04/C09.",
